@@ -157,7 +157,7 @@ func planSession(t *testing.T, run *ev.Run, si, nPlans int) *violation {
 			res          result
 		)
 		for attempt := 0; ; attempt++ {
-			g := &gen{r: r, cfg: genCfg{slots: nSlots, base: nBase, users: 10, dummies: nDummies, maxDepth: 4, natives: r.Intn(5) != 0, committee: committee}, m: m}
+			g := &gen{r: r, cfg: genCfg{slots: nSlots, base: nBase, users: 10, dummies: nDummies, maxDepth: 4, natives: r.Intn(5) != 0, committee: committee, oldForks: stage != ""}, m: m}
 			if x := r.Intn(20); x < 3 {
 				root = g.shaped(7) // notify-only callees under reduced flags
 			} else if x < 8 {
